@@ -92,6 +92,18 @@ _CMP = {
 
 ANALOG_PIN_RE = re.compile(r"^A\d+$")
 
+# Verification hook (REDUINO_VERIF=1 only): records every source line that is consumed
+# without producing an IR node, as (scope, depth, stripped_line, reason).
+import os as _verif_os
+
+_VERIF_ENABLED = _verif_os.environ.get("REDUINO_VERIF") == "1"
+_VERIF_IGNORED: list = []
+
+
+def _verif_note(scope: str, depth: int, line: str, reason: str) -> None:
+    if _VERIF_ENABLED:
+        _VERIF_IGNORED.append((scope, depth, line, reason))
+
 
 def _escape_string_literal(value: str) -> str:
     """Escape a Python string literal into a C/C++ literal body."""
@@ -2353,6 +2365,7 @@ def _parse_simple_lines(
             or RE_IMPORT_BUTTON.match(line)
             or RE_IMPORT_LCD.match(line)
         ):
+            _verif_note(scope, depth, line, "import")
             i += 1
             continue
 
@@ -2412,12 +2425,14 @@ def _parse_simple_lines(
         m = RE_TARGET_CALL.match(line)
         if m:
             ctx["target_port"] = m.group(1)
+            _verif_note(scope, depth, line, "target")
             i += 1
             continue
 
         inline_matches = list(RE_TARGET_INLINE.finditer(line))
         if inline_matches:
             ctx["target_port"] = inline_matches[-1].group(1)
+            _verif_note(scope, depth, line, "target-inline")
             i += 1
             continue
 
@@ -4137,12 +4152,14 @@ def _parse_simple_lines(
                 and isinstance(expr_node.func, ast.Name)
                 and expr_node.func.id == "print"
             ):
+                _verif_note(scope, depth, line, "print")
                 i += 1
                 continue
             try:
                 expr_c = _to_c_expr(line, vars, ctx)
             except Exception:
                 expr_c = None
+                _verif_note(scope, depth, line, "expr-untranslatable")
             if expr_c is not None:
                 if (
                     isinstance(expr_node, ast.Call)
@@ -4188,10 +4205,13 @@ def _parse_simple_lines(
                         _eval_const(line, vars)
                     except Exception:
                         body.append(ExprStmt(expr=expr_c))
+                    else:
+                        _verif_note(scope, depth, line, "constant-expression")
                 i += 1
                 continue
 
         # unknown → ignore
+        _verif_note(scope, depth, line, "unknown")
         i += 1
 
     return body
@@ -4243,11 +4263,13 @@ def parse(src: str) -> Program:
         m = RE_TARGET_CALL.match(text)
         if m:
             ctx["target_port"] = m.group(1)
+            _verif_note("top", 0, text, "target")
             i += 1; continue
 
         inline_matches = list(RE_TARGET_INLINE.finditer(text))
         if inline_matches:
             ctx["target_port"] = inline_matches[-1].group(1)
+            _verif_note("top", 0, text, "target-inline")
             i += 1; continue
 
         # ignore imports
@@ -4261,6 +4283,7 @@ def parse(src: str) -> Program:
             or RE_IMPORT_BUTTON.match(text)
             or RE_IMPORT_POTENTIOMETER.match(text)
         ):
+            _verif_note("top", 0, text, "import")
             i += 1; continue
 
         # controls
